@@ -251,7 +251,7 @@ PROPS = {
 
 PROPS["C04"] = dict(
     gen=True,
-    modules=["HT.Props.C04", "HT.Props.C04Http", "HT.Props.C04Redis", "HT.Props.C04HttpOnce", "HT.Props.C04Ldap", "HT.Props.C04LdapOnce", "HT.Props.C04Chunked", "HT.Props.C04ChunkedOnce", "HT.Props.C04ChunkedExactly", "HT.Props.GenC04"],
+    modules=["HT.Props.C04", "HT.Props.C04Http", "HT.Props.C04Redis", "HT.Props.C04HttpOnce", "HT.Props.C04OneOnce", "HT.Props.C04Ldap", "HT.Props.C04LdapOnce", "HT.Props.C04Chunked", "HT.Props.C04ChunkedOnce", "HT.Props.C04ChunkedExactly", "HT.Props.GenC04"],
     streams=["c04seg"],
     rule="services configured on a real Honeytrap (real Run(): construction, port table, bus, filter -> capture channel), "
          "connections handed to the real handle() (findService, timeout wrapper, recover) over a scripted connection whose "
